@@ -57,6 +57,7 @@ type walker struct {
 	index    bool // walking index package (shard lock)
 	inDefer  bool
 	recv     string          // receiver prefix of the shared fields ("db." when empty)
+	goLits   []*ast.FuncLit  // bodies of `go func() {…}()` statements met on the way (walked afterwards as methods of their own)
 	fields   map[string]bool // shared fields (the DB's when nil)
 }
 
@@ -403,7 +404,10 @@ func (w *walker) stmt(s ast.Stmt) {
 	case *ast.ExprStmt:
 		w.expr(v.X)
 	case *ast.GoStmt:
-		// background goroutines are outside the skeleton
+		// a background goroutine is a thread of its own: its body becomes a pseudo-method "<method>.go<k>" that starts unlocked
+		if fl, ok := v.Call.Fun.(*ast.FuncLit); ok {
+			w.goLits = append(w.goLits, fl)
+		}
 	case *ast.SwitchStmt:
 		w.stmt(v.Init)
 		w.expr(v.Tag)
@@ -420,6 +424,16 @@ func (w *walker) stmt(s ast.Stmt) {
 		}
 		w.st = before
 	case *ast.SelectStmt:
+		before := w.st
+		for _, c := range v.Body.List {
+			w.st = before
+			cc := c.(*ast.CommClause)
+			w.stmt(cc.Comm)
+			for _, st := range cc.Body {
+				w.stmt(st)
+			}
+		}
+		w.st = before
 	case *ast.DeclStmt:
 		w.expr(v)
 	default:
@@ -533,6 +547,11 @@ func main() {
 		w := &walker{method: m.name, lockExpr: []string{"db.mu"}, st: m.entry, nsect: m.entry.section}
 		w.top(fd)
 		all = append(all, w.rows...)
+		for k, fl := range w.goLits {
+			g := &walker{method: fmt.Sprintf("%s.go%d", m.name, k+1), lockExpr: []string{"db.mu"}, st: state{"none", 0}}
+			g.top(&ast.FuncDecl{Name: ast.NewIdent(g.method), Type: fl.Type, Body: fl.Body})
+			all = append(all, g.rows...)
+		}
 	}
 	// shard locks of the index package
 	funcsSaved := funcs
